@@ -60,8 +60,21 @@ CHECKS["C08"] = {
               A("all-numbers", "./checks/c08", "TestC08AllNumbers", budget={"quick": 60, "thorough": 300})],
 }
 
+CHECKS["C19"] = {
+    "level": "model_checking",
+    "rule": "Engine A: every request sequence (depth 2 quick / 3 thorough) over a vocabulary of 32 request forms (Binding; Allocate plain / retransmitted / "
+            "missing or malformed REQUESTED-TRANSPORT / unsupported protocol / DONT-FRAGMENT / RESERVATION-TOKEN+EVEN-PORT / unknown token / bad and malformed "
+            "REQUESTED-ADDRESS-FAMILY / family+token / EVEN-PORT / family 4 / family 6 / unknown comprehension-required attribute / LIFETIME 0; Refresh plain / unknown-required / "
+            "family mismatch; CreatePermission with and without peer; ChannelBind missing number / peer / unknown-required; Connect on a UDP allocation; transaction ids "
+            "all-zero, all-0xFF, shared between clients, fresh) x clients x 5 worlds (IPv4, IPv4 strict, IPv4-mapped source address, IPv6 listener, IPv6 strict) on the real "
+            "turn.Server; oracle on every datagram the server writes (destination = requester, id and method equal, at most one), Binding/Allocate truthfulness "
+            "(mapped address, relay uniqueness, family, lifetime, even port), retransmission idempotence (same relay+lifetime, no socket created, count unchanged), 437/420 where named, "
+            "and after every request AllocationCount, open relay sockets and a reachability probe sweep against the reference model. A class is (world, form, state) -> (class, code).",
+    "parts": [A("vtx", "./checks/c19", "TestC19", budget={"quick": 90, "thorough": 1500})],
+}
+
 ENGINES = [
-    {"name": "vtx", "path": "/verif/vtx", "serves_properties": ["C06"],
+    {"name": "vtx", "path": "/verif/vtx", "serves_properties": ["C01", "C02", "C04", "C06", "C07", "C08", "C19"],
      "kind_free_text": "Engine A: explicit-state search over event histories of the real turn.Server/turn.Client in virtual time (testing/synctest) over an in-memory network, reference model + probe sweep after every event"},
 ]
 
